@@ -3268,7 +3268,9 @@ impl Block {
             // the payouts the golden ticket of this block triggers are made by its fee transaction: a
             // block that leaves it out keeps the fees of the blocks being paid in no output, treasury
             // or graveyard
-            if !fee_transaction_expected.to.is_empty() {
+            // (in a lite block the fee transaction, like any transaction that does not concern the client,
+            // may have been left out: a placeholder stands where it was)
+            if !fee_transaction_expected.to.is_empty() && !self.has_placeholder_transaction() {
                 error!("ERROR: block has a golden ticket but not the fee transaction that pays out");
                 return false;
             }
